@@ -83,13 +83,28 @@ type Remote struct {
 
 // clearPending removes num oldest entries, must hold the r.mu lock.
 func (r *Remote) cleanPending(num int) {
-	// Clear oldest entries
-	for _, item := range pendingOldest(r.pending, num) {
+	// Clear oldest entries, but never one that a caller is still waiting on:
+	// its response would be routed to a fresh channel and the call would hang.
+	for _, item := range pendingOldest(r.pending, len(r.pending)) {
+		if num <= 0 {
+			break
+		}
+		if r.pending[item.key].waiting {
+			continue
+		}
 		delete(r.pending, item.key)
+		num--
 	}
 }
 
 func (r *Remote) getPendingChan(key string) chan Message {
+	return r.pendingChan(key, false)
+}
+
+// pendingChan returns the channel for the given message ID. If waiting is
+// set, the entry is marked as having a blocked receiver so that it does not
+// get discarded when PendingLimit is reached.
+func (r *Remote) pendingChan(key string, waiting bool) chan Message {
 	r.mu.Lock()
 	defer r.mu.Unlock()
 	if r.pending == nil {
@@ -105,6 +120,10 @@ func (r *Remote) getPendingChan(key string) chan Message {
 			msgChan:   make(chan Message, 1),
 			timestamp: time.Now(),
 		}
+		r.pending[key] = pending
+	}
+	if waiting && !pending.waiting {
+		pending.waiting = true
 		r.pending[key] = pending
 	}
 	return pending.msgChan
@@ -138,12 +157,16 @@ func (r *Remote) Serve() error {
 func (r *Remote) receive(ctx context.Context, ID json.RawMessage) (*Message, error) {
 	key := string(ID)
 	select {
-	case msg := <-r.getPendingChan(key):
+	case msg := <-r.pendingChan(key, true):
 		r.mu.Lock()
 		delete(r.pending, key)
 		r.mu.Unlock()
 		return &msg, nil
 	case <-ctx.Done():
+		// Nobody is waiting anymore, don't hold on to the entry.
+		r.mu.Lock()
+		delete(r.pending, key)
+		r.mu.Unlock()
 		return nil, ctx.Err()
 	}
 }
@@ -157,7 +180,13 @@ func (r *Remote) Call(ctx context.Context, result interface{}, method string, pa
 	if err != nil {
 		return err
 	}
+	// Register as a receiver before sending, so that a response which arrives
+	// before we start waiting is not treated as an orphan and discarded.
+	r.pendingChan(string(req.ID), true)
 	if err = r.Codec.WriteMessage(req); err != nil {
+		r.mu.Lock()
+		delete(r.pending, string(req.ID))
+		r.mu.Unlock()
 		return err
 	}
 	resp, err := r.receive(ctx, req.ID)
